@@ -60,6 +60,21 @@ def opModelEntry : Op := do
   | 14 => pure [oF (modelzDiag k2 p1 k x), oF (modelzDiagD (α := Float) k2 k), oF (modelzDiagDPinned k2 p1 k x)]
   | _ => throw "unknown-model-entry"
 
-def tableI : List (String × Op) := [("basis", opBasis), ("mv", opModelEntry)]
+/-- `sub2d a b c d f g w hp x y` → V11 V22 V12  D11x D22x D12x  D22y -/
+def opSub2d : Op := do
+  let a ← flt; let b ← flt; let c ← flt; let d ← flt; let f ← flt; let g ← flt; let w ← flt; let hp ← flt
+  let x ← flt; let y ← flt
+  pure [oF (sub2dV11 f b x), oF (sub2dV22 a b w g hp x y), oF (sub2dV12 c d x),
+        oF (sub2dD11x f b x), oF (sub2dD22x a b w g hp x y), oF (sub2dD12x c d x), oF (sub2dD22y a b w g hp x y)]
+
+/-- `vib E1 E2 lamb r0 om(4) k1(4) k2(4) An(4) X(4) theta`
+    → V11 V22 V12, d/dX_i of V11 (4), of V22 (4), d/dθ of the diagonal, d/dθ of V12 -/
+def opVib : Op := do
+  let e1 ← flt; let e2 ← flt; let lamb ← flt; let r0 ← flt
+  let om ← vec 4; let k1 ← vec 4; let k2 ← vec 4; let an ← vec 4; let X ← vec 4; let th ← flt
+  pure ([oF (vibDiag e1 om k1 an X th), oF (vibDiag e2 om k2 an X th), oF (vibV12 lamb r0 th)] ++
+        oVec (vibDiagDmode om k1 X) ++ oVec (vibDiagDmode om k2 X) ++ [oF (vibDiagDtheta an th), oF (vibD12theta lamb r0 th)])
+
+def tableI : List (String × Op) := [("basis", opBasis), ("mv", opModelEntry), ("sub2d", opSub2d), ("vib", opVib)]
 
 end Mud.Exec
